@@ -223,7 +223,31 @@ fn case(doc: Value, tag: &str) -> Value {
     json!({"op": "yaml_load", "doc": doc, "ext": crate::dsl::ext_tables(&pats, &[], &[]), "tag": tag, "nt": true})
 }
 
+/// "severities above 10 act as 10": several matching detections with severities up to 255 (sums far beyond u8)
+fn gen_severity_scans(tier: &str, seed: u64, out: &mut dyn FnMut(Value)) {
+    use crate::dsl::{Form, Lit, Operand, SRule};
+    use crate::event::DynEvent;
+    let mut rng = Rng::new(seed ^ 0xc20);
+    let n = if tier == "thorough" { 3000 } else { 300 };
+    for _ in 0..n {
+        let k = 2 + rng.below(3);
+        let rules: Vec<SRule> = (0..k)
+            .map(|i| SRule {
+                name: format!("r{i}"),
+                ty: Some((*rng.pick(&["detection", "detection", "filter"])).to_string()),
+                ops: vec![("$a".into(), Operand::Test { segs: vec!["x".into()], op: 0, lit: Lit::sq("1") })],
+                cond: Some(Form::V("$a".into())),
+                severity: Some(*rng.pick(&[255u64, 254, 250, 246, 245, 200, 128, 11, 10, 9, 0])),
+                ..Default::default()
+            })
+            .collect();
+        let ev = DynEvent { source: "s".into(), id: 1, fields: vec![(vec!["x".into()], gene::FieldValue::String("1".into()))] };
+        out(crate::props::engine::scenario_json(&rules, &[ev], &mut rng, "several high severities matching"));
+    }
+}
+
 pub fn gen(tier: &str, seed: u64, out: &mut dyn FnMut(Value)) {
+    gen_severity_scans(tier, seed, out);
     let mut rng = Rng::new(seed);
     let thorough = tier == "thorough";
     let n = if thorough { 30000 } else { 3000 };
@@ -320,7 +344,7 @@ pub fn gen(tier: &str, seed: u64, out: &mut dyn FnMut(Value)) {
             }
             6 => {
                 c.retain(|(k, _)| k != "meta");
-                c.push(("meta".into(), map(vec![(p("attack"), seq(vec![q(*rng.pick(&["T1234", "1234", "T", "T12.a", "t1.2", "T1 ", "T1.2.3", "\u{e9}1", "TA0001", "T\u{ff11}\u{ff12}", "T\u{661}\u{662}", "T1.\u{966}", "\u{ff34}1", "T1\n", "\nT1", "T1.", "T.1", " T1", "T 1", "T1x"]))]))])));
+                c.push(("meta".into(), map(vec![(p("attack"), seq(vec![q(*rng.pick(&["T1234", "1234", "T", "T12.a", "t1.2", "T1 ", "T1.2.3", "\u{e9}1", "TA0001", "T\u{ff11}\u{ff12}", "T\u{661}\u{662}", "T1.\u{966}", "\u{ff34}1", "\u{df}1088", "\u{fb01}1234", "t\u{131}0043", "\u{17f}1088", "\u{212a}1", "Ta0043", "tA1.001", "T1\n", "\nT1", "T1.", "T.1", " T1", "T 1", "T1x"]))]))])));
                 out(case(to_tree(&c), "ATT&CK id"));
             }
             7 => {
